@@ -95,13 +95,14 @@ def _escape_work(cases):
         code = M.parse(val)
         enc = [ord(ch)] + _enc_codes("&#%d;" % ord(ch)) + _enc_items(code)
         if str(code) != val:
-            res.append((None, "the value does not round-trip"))
+            res.append((None, "the value does not round-trip", None))
             continue
         try:
+            flag = Template._has_unescapable_equals(code) if ch == "=" else None
             Template._surface_escape(code, ch)
-            res.append((" ".join(map(str, enc)), str(code)))
+            res.append((" ".join(map(str, enc)), str(code), flag))
         except Exception as e:      # noqa: BLE001
-            res.append((" ".join(map(str, enc)), "EXC %r" % (e,)))
+            res.append((" ".join(map(str, enc)), "EXC %r" % (e,), None))
     return res
 
 
@@ -115,15 +116,27 @@ def escape_tie(c, seed):
     vals = [v for v in vals if "\ud800" not in v]
     cases = [(v, ch) for v in vals for ch in "|="]
     real = vlib.robust_map(_escape_work, cases, chunk=200, timeout=120)
-    good = [(cs, r) for cs, r in zip(cases, real) if not (isinstance(r, tuple) and r and r[0] in ("CRASH", "TIMEOUT", "PYEXC")) and r[0] is not None]
+    good = [(cs, r) for cs, r in zip(cases, real) if not (isinstance(r, tuple) and r and r[0] in ("CRASH", "TIMEOUT", "PYEXC")) and len(r) == 3 and r[0] is not None]
     try:
         model = vlib.model_run("escape", [r[0] for _cs, r in good])
     except Exception as e:  # noqa: BLE001
         c.broken.append({"file": "coq/extract/escape_run", "line": 0, "statement": "escape (extracted)", "error": str(e)})
         return
     dis = 0
-    for ((val, ch), (_enc, got)), m in zip(good, model):
+    for ((val, ch), (_enc, got, flag)), m in zip(good, model):
         c.cov["traces_validated_against_impl"] += 1
+        mflag, m = m.strip().split("|", 1)
+        if flag is not None and bool(flag) != (mflag == "1"):
+            # the decision "can this key stay hidden": the model's open_renders vs Template._has_unescapable_equals
+            probe = "{{t|%s}}" % val
+            nodes = M.parse(probe).nodes
+            ok = len(nodes) == 1 and hasattr(nodes[0], "params") and len(nodes[0].params) == 1 and not nodes[0].params[0].showkey
+            if not flag and not ok:
+                c.fail("_has_unescapable_equals(%r) is False, but as a hidden-key value it is not one positional parameter (the model says an open node renders '=')" % val,
+                       {"escape_case": [val, ch]})
+            else:
+                c.broken.append({"file": "correspondence _has_unescapable_equals", "line": 0, "statement": "open_renders (model tie)",
+                                 "error": "value %r: model %s vs implementation %r" % (val, mflag, flag)})
         want = "" if m.strip() == "-" else "".join(chr(int(x)) for x in m.strip().split(","))
         if got != want:
             dis += 1
